@@ -479,11 +479,17 @@ func (t *tOps) remove(fd storage.FileDesc) {
 		} else {
 			t.s.logf("table@remove removed @%d", fd.Num)
 		}
-		if t.evictRemoved && t.blockCache != nil {
+		// The file num can only be reused if it is the last one allocated.
+		// A reused num must not find blocks of the removed table in the
+		// block cache, so evict them first.
+		reusable := t.s.nextFileNum() == fd.Num+1
+		if (t.evictRemoved || reusable) && t.blockCache != nil {
 			t.blockCache.EvictNS(uint64(fd.Num))
 		}
-		// Try to reuse file num, useful for discarded transaction.
-		t.s.reuseFileNum(fd.Num)
+		if reusable {
+			// Try to reuse file num, useful for discarded transaction.
+			t.s.reuseFileNum(fd.Num)
+		}
 	})
 }
 
